@@ -234,6 +234,10 @@ def gen_data(kind, T, N, dseed):
 
 
 def get_data(desc):
+    if desc.get("kind") == "test_data":
+        # the library's own example data set (CouplingAnalysis.test_data), used as one more input
+        from pyunicorn.funcnet import CouplingAnalysis
+        return np.ascontiguousarray(np.array(CouplingAnalysis.test_data(), dtype=np.float64))
     if "explicit" in desc:
         d = np.ascontiguousarray(np.array(desc["explicit"], dtype=np.float64))
     else:
@@ -983,6 +987,282 @@ def fam_shuf(w, acc):
             acc.fail(f"pure.shuffled_surrogate_for_mi/{mode}", w, msg)
 
 
+# =============================================================================== pure class, round 3
+# time_surrogate_for_cc / _mi, mutual_information_edges, correlatedNoiseSurrogates (and the
+# fourier=True test matrices), 3-D / 4-D input arrays, CouplingAnalysis.test_data
+
+def _call(acc, check, w, fun, *a, **k):
+    """fun(*a, **k) silenced; an exception is a failure of `check`.  Returns (ok, value)."""
+    try:
+        with quiet():
+            return True, fun(*a, **k)
+    except Exception as e:    # pylint: disable=broad-except
+        tb = traceback.format_exc().strip().splitlines()
+        acc.fail(check, w, f"{type(e).__name__}: {e} @ {tb[-3].strip() if len(tb) >= 3 else ''}")
+        return False, None
+
+
+def _two_sided_summary_msg(x, F, tm, mode, signed, mult=1.0):
+    """x = library output in lag_mode `mode` for the two-sided lag function F[t, i, j]
+    (t = 0..2 tau_max, NaN = undefined -> 0).  signed: summaries use |F| (cross-correlation),
+    else F itself with the maximum floored at 0 (normalised MI)."""
+    x = np.asarray(x, dtype=np.float64)
+    N = F.shape[1]
+    F0 = np.where(np.isnan(F), 0.0, F)
+    if mode == "all":
+        if x.shape != F.shape:
+            return f"shape {x.shape} != {F.shape}"
+        return cmp_defined(x, F, mult=mult, undefined="zero")
+    if x.shape != (2, N, N):
+        return f"shape {x.shape} != {(2, N, N)}"
+    K = np.abs(F0) if signed else F0
+    if mode == "sum":
+        return cmp_defined(x[0], K[tm:].sum(axis=0), mult=mult * (tm + 1.0)) or \
+            cmp_defined(x[1], K[:tm + 1].sum(axis=0), mult=mult * (tm + 1.0))
+    K = K if signed else np.maximum(K, 0.0)
+    best = K.max(axis=0)
+    msg = cmp_defined(x[0], best, mult=mult)
+    if msg:
+        return "max value: " + msg
+    for i in range(N):
+        for j in range(N):
+            l_ = x[1][i, j]
+            if best[i, j] <= 0:
+                continue
+            if l_ != int(l_) or not -tm <= l_ <= tm or \
+                    not tol_ok(K[int(l_) + tm, i, j], best[i, j], 2.0 * mult):
+                return f"max lag [{i},{j}] = {l_!r}: lag function {K[:, i, j].tolist()}"
+    return None
+
+
+def _pure_mi_function(cols, tm, bins, b):
+    """doc-formula normalised MI: cols[(v, t)] = samples of series v at offset t (t = 0..2 tau_max)."""
+    N = 1 + max(v for v, _ in cols)
+    sym = {k: S.quantile_symbols(c, bins) for k, c in cols.items()}
+    F = np.zeros((2 * tm + 1, N, N))
+    for t in range(2 * tm + 1):
+        for i in range(N):
+            for j in range(N):
+                F[t, i, j] = _pure_mi_doc(sym[i, tm], sym[j, t], b)
+    return F
+
+
+def fam_tsur(w, acc):
+    """time_surrogate_for_cc / _mi: 'a joint shuffled surrogate of the full dataarray of length
+    sample_range for all taus' - the statistic over sample_range distinct time points t (drawn
+    jointly for all series) of X_i(t) against X_j(t + tau).
+    (1) sample_range = T - 2 tau_max: every admissible time point is used once, so the result is
+        the statistic of cross_correlation / mutual_information itself, whatever the RNG does;
+    (2) sample_range smaller: with the global NumPy RNG seeded the sample is
+        np.random.permutation(range(tau_max, T - tau_max))[:sample_range] (one draw)."""
+    d = get_data(w["data"])
+    tm, bins, rs, sr = w["tau_max"], w["bins"], w["rseed"], w["sample_range"]
+    T, N = d.shape
+    cr = T - 2 * tm
+    nontriv = n_nonconst(d) >= 2
+    pp = _pp(d)
+    np.random.seed(rs)
+    perm = np.random.permutation(range(tm, T - tm))[:sr]
+    parts = [("full-range", cr, np.arange(tm, T - tm))]
+    if sr < cr:
+        parts.append(("sample", sr, perm))
+    for part, n_s, times in parts:
+        # ---- cross-correlation
+        F = np.full((2 * tm + 1, N, N), np.nan)
+        for t in range(2 * tm + 1):
+            for i in range(N):
+                for j in range(N):
+                    F[t, i, j] = S.pearson(d[times, i], d[times + t - tm, j])
+        for mode in ("all", "sum", "max"):
+            acc.case(wkey(w) + f"|cc|{part}|{mode}", nontriv, sample=w if mode == "all" else None)
+            check = f"pure.time_surrogate_for_cc/{part}-{mode}"
+            np.random.seed(rs)
+            ok, x = _call(acc, check, w, pp.time_surrogate_for_cc, sample_range=n_s, tau_max=tm,
+                          lag_mode=mode)
+            if not ok:
+                break
+            msg = _two_sided_summary_msg(x, F, tm, mode, signed=True)
+            if msg:
+                acc.fail(check, w, msg)
+        # ---- mutual information (normalised, equal-count bins of the sampled values)
+        if n_s < 2:
+            continue
+        b = _bins_eff(n_s, bins)
+        G = _pure_mi_function({(v, t): d[times + t - tm, v] for v in range(N)
+                               for t in range(2 * tm + 1)}, tm, bins, b)
+        for mode in ("all", "sum", "max"):
+            acc.case(wkey(w) + f"|mi|{part}|{mode}", nontriv)
+            check = f"pure.time_surrogate_for_mi/{part}-{mode}"
+            np.random.seed(rs)
+            ok, x = _call(acc, check, w, pp.time_surrogate_for_mi, bins=bins, sample_range=n_s,
+                          tau_max=tm, lag_mode=mode)
+            if not ok:
+                break
+            msg = _two_sided_summary_msg(x, G, tm, mode, signed=False)
+            if msg:
+                acc.fail(check, w, msg)
+
+
+def fam_edges(w, acc):
+    """mutual_information_edges (default tau = 0): the stated binning - 'adaptive bins, where each
+    marginal bin contains the same number of samples'; returns the lower edges of the bins of
+    every series, i.e. every ceil(T / bins)-th order statistic; these are the bins that
+    mutual_information(tau_max=0) uses; the data are not altered."""
+    d = get_data(w["data"])
+    bins = w["bins"]
+    T, N = d.shape
+    acc.case(wkey(w), n_nonconst(d) >= 2, sample=w)
+    pp = _pp(d)
+    before = pp.dataarray.copy()
+    check = "pure.mutual_information_edges/equal-count-lower-edges"
+    ok, e = _call(acc, check, w, pp.mutual_information_edges, bins=bins)
+    if not ok:
+        return
+    step = int(math.ceil(T / float(bins)))
+    want = np.array([sorted(d[:, i].tolist())[::step] for i in range(N)])
+    e = np.asarray(e)
+    if e.shape != want.shape or not np.array_equal(e, want):
+        acc.fail(check, w, f"got {e.tolist()} expected {want.tolist()}")
+        return
+    if not np.array_equal(pp.dataarray, before):
+        acc.fail("pure.mutual_information_edges/data-unchanged", w, "dataarray modified by the call")
+        return
+    acc.case(wkey(w) + "|mi", n_nonconst(d) >= 2)
+    sym = [np.array([int((e[i] <= v).sum()) - 1 for v in d[:, i]]) for i in range(N)]
+    b = e.shape[1]
+    doc = np.array([[_pure_mi_doc(sym[i], sym[j], b) for j in range(N)] for i in range(N)])
+    ok, a = _call(acc, "pure.mutual_information_edges/binning-of-mutual_information", w,
+                  pp.mutual_information, bins=bins, tau_max=0, lag_mode="all")
+    if ok:
+        msg = cmp_defined(a[0], doc)
+        if msg:
+            acc.fail("pure.mutual_information_edges/binning-of-mutual_information", w, msg)
+
+
+def fam_cns(w, acc):
+    """correlatedNoiseSurrogates: 'share their power spectrum and autocorrelation function with
+    the original time series' (per series, same dimensions, real); shuffled_surrogate_for_cc / _mi
+    with fourier=True are the test matrices computed from such surrogates: symmetric, bounded,
+    unit diagonal for non-constant series."""
+    d = get_data(w["data"])
+    tm, bins, rs = w["tau_max"], w["bins"], w["rseed"]
+    T, N = d.shape
+    cr = T - 2 * tm
+    nontriv = n_nonconst(d) >= 2
+    pp = _pp(d)
+    orig = np.ascontiguousarray(d.T.copy())
+    amp0 = np.abs(np.fft.rfft(orig, axis=1))
+    scale = max(1.0, float(amp0.max()))
+    np.random.seed(rs)
+    for call_no in (1, 2):               # second call: the FFT cached by the first one
+        acc.case(wkey(w) + f"|cns|{call_no}", nontriv, sample=w if call_no == 1 else None)
+        check = "pure.correlatedNoiseSurrogates/amplitude-spectrum"
+        ok, s_ = _call(acc, check, w, pp.correlatedNoiseSurrogates, orig.copy())
+        if not ok:
+            break
+        s_ = np.asarray(s_)
+        if s_.shape != orig.shape or s_.dtype.kind != "f" or not np.all(np.isfinite(s_)):
+            acc.fail("pure.correlatedNoiseSurrogates/same-dimensions-real", w,
+                     f"shape {s_.shape} dtype {s_.dtype}")
+            break
+        dev = np.abs(np.abs(np.fft.rfft(s_, axis=1)) - amp0)
+        if dev.max() > 1e-9 * scale:
+            k = np.unravel_index(np.argmax(dev), dev.shape)
+            acc.fail(check, w, f"call {call_no}: series {k[0]} frequency {k[1]}: |FFT| of the surrogate "
+                               f"{np.abs(np.fft.rfft(s_, axis=1))[k]!r}, of the original {amp0[k]!r}")
+            break
+    nonconst = np.array([not np.all(d[:, k] == d[0, k]) for k in range(N)])
+    if cr < 4:
+        return
+    for kind in ("cc", "mi"):
+        if kind == "mi" and cr % bins:
+            continue          # unequal bin occupation: the documented formula is not bounded by 1
+        fun = pp.shuffled_surrogate_for_cc if kind == "cc" else pp.shuffled_surrogate_for_mi
+        kw = {} if kind == "cc" else {"bins": bins}
+        for mode in ("all", "sum", "max"):
+            acc.case(wkey(w) + f"|{kind}|fourier|{mode}", nontriv)
+            check = f"pure.shuffled_surrogate_for_{kind}[fourier]/{mode}"
+            np.random.seed(rs)
+            ok, x = _call(acc, check, w, fun, fourier=True, tau_max=tm, lag_mode=mode, **kw)
+            if not ok:
+                break
+            x = np.asarray(x, dtype=np.float64)
+            want_shape = (2 * tm + 1, N, N) if mode == "all" else (2, N, N)
+            if x.shape != want_shape:
+                acc.fail(check, w, f"shape {x.shape} != {want_shape}")
+                continue
+            mats = x if mode == "all" else (x if mode == "sum" else x[:1])
+            top = (tm + 1.0) if mode == "sum" else 1.0
+            lo = -top if (kind == "cc" and mode == "all") else 0.0
+            msg = None
+            for M_ in mats:
+                if not np.all(np.isfinite(M_)) or M_.min() < lo - 2 * ATOL * top or M_.max() > top * (1 + 2 * ATOL) + 2 * ATOL:
+                    msg = f"range [{M_.min()!r}, {M_.max()!r}] outside [{lo}, {top}]"
+                elif np.any(~tol_ok(M_, M_.T, 2.0 * top)):
+                    msg = "matrix not symmetric"
+                elif np.any(~tol_ok(np.diag(M_)[nonconst], top, 2.0 * top)):
+                    msg = f"diagonal {np.diag(M_).tolist()} != {top} for the non-constant series"
+                if msg:
+                    break
+            if not msg and mode == "max" and not (np.all(x[1] == np.round(x[1])) and np.all(np.abs(x[1]) <= tm)):
+                msg = "lags outside -tau_max..tau_max"
+            if msg:
+                acc.fail(check, w, msg)
+
+
+def fam_nd(w, acc):
+    """Documented input arrays [time, index, index] (3-D) and 4-D: the estimates are those of the
+    series flattened over the non-time axes (node k = row-major index)."""
+    from pyunicorn.funcnet import CouplingAnalysis, CouplingAnalysisPurePython
+    d = get_data(w["data"])
+    tm = w["tau_max"]
+    T, N = d.shape
+    nontriv = n_nonconst(d) >= 2
+    ref2 = S.two_sided_cc(d, tm)
+    ref1 = S.lagged_cc(d, tm)
+    for shape in w["shapes"]:
+        nd = len(shape) + 1
+        arr = np.ascontiguousarray(d.reshape((T,) + tuple(shape)))
+        ww = dict(w, shapes=[shape])
+        acc.case(wkey(ww) + "|pure", nontriv, sample=ww)
+        check = f"pure.init/{nd}d-equals-flattened"
+        ok, pp = _call(acc, check, ww, CouplingAnalysisPurePython, arr.copy(), silence_level=3)
+        if ok:
+            if getattr(pp, "N", None) != N or getattr(pp, "total_time", None) != T:
+                acc.fail(check, ww, f"N={getattr(pp, 'N', None)} total_time={getattr(pp, 'total_time', None)}, "
+                                    f"expected {N}, {T}")
+            else:
+                ok, a = _call(acc, check, ww, pp.cross_correlation, tau_max=tm, lag_mode="all")
+                if ok:
+                    msg = _two_sided_summary_msg(a, ref2, tm, "all", signed=True)
+                    if msg:
+                        acc.fail(check, ww, msg)
+        acc.case(wkey(ww) + "|compiled", nontriv)
+        check = f"CouplingAnalysis.init/{nd}d-equals-flattened"
+        ok, ca = _call(acc, check, ww, CouplingAnalysis, arr.copy(), silence_level=3)
+        if ok:
+            ok, a = _call(acc, check, ww, ca.cross_correlation, tau_max=tm, lag_mode="all")
+            if ok:
+                msg = (f"N={ca.N}" if ca.N != N else None) or cmp_defined(a, ref1, undefined="zero")
+                if msg:
+                    acc.fail(check, ww, msg)
+
+
+def fam_testdata(w, acc):
+    """CouplingAnalysis.test_data(): 'example test data' - held only to being a data set in the
+    domain of the property (2-D float array, T >= 3, N >= 2, finite); the estimator clauses are
+    evaluated on it by the cc / ccpure / mi / it families (data kind 'test_data')."""
+    from pyunicorn.funcnet import CouplingAnalysis
+    acc.case(wkey(w), True, sample=w)
+    ok, d = _call(acc, "test_data/is-a-data-set", w, CouplingAnalysis.test_data)
+    if not ok:
+        return
+    d = np.asarray(d)
+    if d.ndim != 2 or d.shape[0] < 3 or d.shape[1] < 2 or d.dtype.kind != "f" or \
+            not np.all(np.isfinite(d)) or n_nonconst(d) < 2:
+        acc.fail("test_data/is-a-data-set", w, f"shape {d.shape} dtype {d.dtype}")
+
+
 # =============================================================================== climate classes
 
 def _climate_data(obs, cycle):
@@ -1302,6 +1582,7 @@ FAMILIES = {
     "cc": fam_cc, "sym": fam_sym, "lag8": fam_lag8, "mi": fam_mi, "binlag": fam_binlag,
     "it": fam_it, "gaussinf": fam_gaussinf, "ccpure": fam_ccpure, "mipure": fam_mipure, "shuf": fam_shuf,
     "clim": fam_clim, "surr": fam_surr, "constnd": fam_constnd,
+    "tsur": fam_tsur, "edges": fam_edges, "cns": fam_cns, "nd": fam_nd, "testdata": fam_testdata,
 }
 
 KINDS = ["rand", "ar", "const", "dup", "anti", "ties", "lagcopy", "sine", "mixed"]
@@ -1524,6 +1805,69 @@ def build_affine_cases(tier, seed, ratio_shuf=RATIO_SHUF, ratio_it=RATIO_DEGEN):
     return cases
 
 
+ND_SHAPES = {4: [[2, 2], [1, 2, 2]], 6: [[2, 3], [3, 2], [1, 2, 3]], 8: [[2, 4], [2, 2, 2]],
+             12: [[3, 4], [2, 2, 3]]}
+
+
+def build_round3_cases(tier, seed):
+    """Pure-Python class: time surrogates, bin edges, correlated-noise surrogates, 3-D / 4-D input;
+    CouplingAnalysis.test_data as one more data set."""
+    rng = np.random.RandomState(seed + 104729)
+    thorough = tier == "thorough"
+    cases = []
+
+    def ds():
+        return int(rng.randint(1, 2 ** 31 - 1))
+
+    # ---- the library's example data set
+    td = {"kind": "test_data"}
+    cases.append({"family": "testdata"})
+    cases.append({"family": "cc", "data": td, "tau_max": 2, "rel": 4242})
+    cases.append({"family": "ccpure", "data": td, "tau_max": 2})
+    cases.append({"family": "mi", "data": td, "tau_max": 0, "estimator": "binning", "bins": 6})
+    cases.append({"family": "mi", "data": td, "tau_max": 2, "estimator": "gauss"})
+    for cm in ("ity", "mit"):
+        cases.append({"family": "it", "data": td, "tau_max": 2, "past": 1, "cond_mode": cm,
+                      "estimator": "gauss"})
+    cases.append({"family": "mipure", "data": td, "tau_max": 1, "bins": 4})
+    cases.append({"family": "nd", "data": td, "tau_max": 1, "shapes": ND_SHAPES[4]})
+    # ---- exhaustive short two-column series: time surrogates, bin edges
+    ser4 = list(enumerate_series(4, (0, 1, 2)))
+    pick = range(len(ser4)) if thorough else rng.choice(len(ser4), 200, replace=False)
+    for k in pick:
+        tm = int(k % 2)
+        cr = 4 - 2 * tm
+        cases.append({"family": "tsur", "data": {"explicit": ser4[k]}, "tau_max": tm, "bins": 2,
+                      "rseed": int(k), "sample_range": int(1 + (k // 2) % cr)})
+        cases.append({"family": "edges", "data": {"explicit": ser4[k]}, "bins": int(1 + k % 5)})
+    # ---- seeded data sets
+    reps = int(os.environ.get("C10_R3_REPS", 40 if thorough else 4))
+    for _ in range(reps):
+        for kind in KINDS:
+            shapes = [(5, 2), (int(rng.randint(6, 16)), int(rng.randint(2, 5))),
+                      (int(rng.randint(16, 61)), int(rng.randint(2, 6))),
+                      (int(rng.randint(60, 121)), int(rng.choice([4, 6, 8, 12])))]
+            for (T, N) in shapes:
+                if kind == "mixed" and N < 3:
+                    N = 5
+                desc = {"kind": kind, "T": T, "N": N, "dseed": ds()}
+                tm = int(rng.randint(0, min(3, (T - 3) // 2) + 1))
+                cr = T - 2 * tm
+                bins = int(rng.choice([2, 3, 4, 6]))
+                if N <= 6:
+                    cases.append({"family": "tsur", "data": desc, "tau_max": tm, "bins": bins,
+                                  "rseed": ds() % (2 ** 31), "sample_range": int(rng.randint(2, cr + 1))})
+                cases.append({"family": "edges", "data": desc, "bins": int(rng.choice([1, 2, 3, 4, 5, 8, 16, T, T + 3]))})
+                if kind != "mixed":
+                    # even and odd lengths; every third case with bins dividing the sample length
+                    b2 = bins if rng.randint(3) else int([b_ for b_ in (4, 3, 2, 1) if cr % b_ == 0][0])
+                    cases.append({"family": "cns", "data": desc, "tau_max": tm, "bins": max(b2, 2) if cr % max(b2, 2) == 0 else bins,
+                                  "rseed": ds() % (2 ** 31)})
+                if N in ND_SHAPES:
+                    cases.append({"family": "nd", "data": desc, "tau_max": int(min(tm, 2)), "shapes": ND_SHAPES[N]})
+    return cases
+
+
 def eval_case(w):
     acc = Acc(tag="@affine" if isinstance(w.get("data"), dict) and is_affine(w["data"]) else "")
     try:
@@ -1559,7 +1903,8 @@ def main():
         wit = {k: v for k, v in wit.items() if k not in ("a", "b", "perm", "observe")}
         cases = [wit]
     else:
-        cases = build_cases(args.tier, args.seed) + build_affine_cases(args.tier, args.seed)
+        cases = build_cases(args.tier, args.seed) + build_affine_cases(args.tier, args.seed) + \
+            build_round3_cases(args.tier, args.seed)
     workers = 1
     if not args.replay:
         workers = min(8, os.cpu_count() or 1) if args.tier == "thorough" else min(4, os.cpu_count() or 1)
